@@ -279,7 +279,16 @@ func writeStructFieldUnmarshaller(name string, typ FieldType, w *iohelp.ErrorWri
 		ln := getLineWithTabs(settings.typeUnmarshallers[typ.Map.Key], depth+1, "&"+depthName("k", depth))
 		w.SafeWrite([]byte(strings.Replace(ln, "=", ":=", 1)))
 		name = "&(" + name[1:] + "[" + depthName("k", depth) + "])"
-		writeStructFieldUnmarshaller(name, typ.Map.Value, w, settings, depth+1)
+		if typ.Map.Value.Array != nil || typ.Map.Value.Map != nil {
+			// a nested container is filled in a local and stored once: an entry under
+			// a NaN key cannot be looked up again to be filled in place
+			vName := depthName("v", depth)
+			writeLineWithTabs(w, "var "+vName+" "+typ.Map.Value.goString(settings), depth+1)
+			writeStructFieldUnmarshaller("&("+vName+")", typ.Map.Value, w, settings, depth+1)
+			writeLineWithTabs(w, "%RECV = "+vName, depth+1, name)
+		} else {
+			writeStructFieldUnmarshaller(name, typ.Map.Value, w, settings, depth+1)
+		}
 		writeLineWithTabs(w, "}", depth)
 	} else {
 		simpleTyp := typ.Simple
